@@ -300,6 +300,32 @@ func suiteC13(c *ctx) {
 			pr.Stream = genMalformed(r)
 		}
 		rc.Prior = pr
+		switch i % 10 {
+		case 7:
+			// the abandoned stream stopped inside a block header (staged header bytes); the next stream's
+			// first header arrives in pieces
+			pr.Stream = StreamSpec{Kind: "synth", Synth: &SynthSpec{Seed: r.U64(), Blocks: 2, Size: 300, Kinds: r.PickS([]string{"d", "d", "s"})}}
+			pr.Cut = r.Range(1, 40)
+			pr.Read = -1
+			if api == "flate" {
+				rc.Stream = StreamSpec{Kind: "synth", Synth: &SynthSpec{Seed: r.U64(), Blocks: 1 + r.Intn(2), Size: 3000, Kinds: r.PickS([]string{"d", "d", "s"})}}
+				rc.Src = SrcSpec{Kind: r.PickS([]string{"bufio", "plain"}), Buf: r.Pick([]int{16, 64, 4096}), Chunk: r.PickS([]string{"one", "one", "rand"}), Seed: r.U64(), Term: "eof"}
+			}
+		case 8:
+			// the first stream was read to io.EOF from the same buffered source that Reset gets again
+			if api == "flate" {
+				rc.Ctor = "reuse-same"
+				pr.Stream = genValidStream(r, "flate")
+				if pr.Stream.Kind == "synth" && pr.Stream.Synth.Blocks > 50 {
+					pr.Stream.Synth.Blocks = 5
+				}
+				pr.Cut, pr.Read = -1, -1
+				rc.Src = SrcSpec{Kind: "bufio", Buf: r.Pick([]int{16, 512, 4096, 65536}), Chunk: r.PickS([]string{"all", "rand", "one"}), Seed: r.U64(), Term: "eof"}
+				if i%20 == 8 {
+					rc.Stream = StreamSpec{Kind: "synth", Synth: &SynthSpec{Seed: r.U64(), Blocks: 1, Size: r.Pick([]int{1, 2, 5, 30}), Fault: "dist-too-far", Kinds: "d"}}
+				}
+			}
+		}
 		cases = append(cases, rc)
 	}
 	parallelJ(len(cases), func(i int) interface{} { return cases[i] }, func(i int) { checkC13(c.rep, c.pool, cases[i]) })
